@@ -418,3 +418,69 @@ pub fn cmd_replay_one(factory: &Factory, args: &Args) -> i32 {
         1
     }
 }
+
+/// `vh replay-traces <model> <traces.ndjson> [--out F]`: complete behaviours produced by `tlc -simulate`
+/// (first line {"cfg":..}, then {"steps":[{"l","o"},..]} per line) are run step by step on a fresh object.
+pub fn cmd_replay_traces(model: &str, factory: &Factory, args: &Args) -> i32 {
+    let f = std::fs::File::open(&args.pos[2]).expect("open traces");
+    let rd = BufReader::with_capacity(1 << 20, f);
+    let mut cfg = Value::Null;
+    let max_fail = args.u64("maxfail", 500) as usize;
+    let (mut behaviours, mut steps, mut failures_total) = (0u64, 0u64, 0u64);
+    let mut failures = vec![];
+    let mut distinct: HashSet<u64> = HashSet::new();
+    let mut samples = vec![];
+    let mut maxlen = 0usize;
+    for line in rd.lines() {
+        let line = line.unwrap();
+        if line.is_empty() {
+            continue;
+        }
+        let v: Value = serde_json::from_str(&line).expect("trace json");
+        if let Some(c) = v.get("cfg") {
+            cfg = c.clone();
+            continue;
+        }
+        let st = v["steps"].as_array().unwrap();
+        behaviours += 1;
+        maxlen = maxlen.max(st.len());
+        let mut h: u64 = 0xcbf29ce484222325;
+        for s in st {
+            for b in s["l"].to_string().bytes() {
+                h ^= b as u64;
+                h = h.wrapping_mul(0x100000001b3);
+            }
+        }
+        distinct.insert(h);
+        if samples.len() < 2 {
+            samples.push(v["steps"].clone());
+        }
+        let mut m = factory(&cfg);
+        let mut prefix = vec![];
+        for (i, s) in st.iter().enumerate() {
+            let obs = safe_apply(&mut m, &s["l"]);
+            steps += 1;
+            if obs != s["o"] {
+                failures_total += 1;
+                if failures.len() < max_fail {
+                    failures.push(json!({"model": model, "kind": "sim", "cfg": cfg, "step": i, "prefix": prefix,
+                        "label": s["l"], "allowed": [s["o"]], "actual": obs}));
+                }
+                break;
+            }
+            prefix.push(json!({"l": s["l"], "o": obs}));
+        }
+    }
+    let res = json!({"model": model, "graph_states": 0, "graph_edges": 0, "max_depth": maxlen,
+        "behaviours": behaviours, "steps": steps, "distinct_behaviours": distinct.len(), "edges_covered": 0,
+        "label_groups": 0, "walks": behaviours, "histories": 0,
+        "failures_total": failures_total, "failures": failures, "samples": samples});
+    let out = args.str("out", "-");
+    if out == "-" {
+        println!("{}", res);
+    } else {
+        let mut f = std::fs::File::create(&out).expect("create out");
+        writeln!(f, "{}", res).unwrap();
+    }
+    0
+}
